@@ -9,7 +9,9 @@ Inductive ltok :=
 | LWord (ty : ttype) (w : bytes)     (* a keyword spelled with identifier characters (by, json, or, ...), not a function name *)
 | LPunct (ty : ttype) (w : bytes)    (* an operator / punctuation token of one or two characters *)
 | LStr (v : bytes)                   (* "..." with quote and backslash escaped *)
-| LFun (ty : ttype) (w : bytes).     (* a function keyword (rate, sum, ip, ...): keeps its type when an opening parenthesis follows *)
+| LFun (ty : ttype) (w : bytes)      (* a function keyword (rate, sum, ip, ...): keeps its type when ( or by / without follows *)
+| LNum (ds : bytes)                  (* a number written as digits *)
+| LDur (ds u : bytes).               (* a duration written as digits and ONE unit: 5m, 30s, 250ms *)
 
 Fixpoint esc (k : bytes) : bytes :=
   match k with
@@ -18,15 +20,22 @@ Fixpoint esc (k : bytes) : bytes :=
   end.
 
 Definition ltext (t : ltok) : bytes :=
-  match t with LId n => n | LWord _ w => w | LPunct _ w => w | LStr v => """"%byte :: esc v ++ [""""%byte] | LFun _ w => w end.
+  match t with LId n => n | LWord _ w => w | LPunct _ w => w | LStr v => """"%byte :: esc v ++ [""""%byte] | LFun _ w => w | LNum ds => ds | LDur ds u => ds ++ u end.
 Definition lres (t : ltok) : ttype * bytes :=
-  match t with LId n => (TIdent, n) | LWord ty w => (ty, w) | LPunct ty w => (ty, w) | LStr v => (TString, v) | LFun ty w => (ty, w) end.
+  match t with LId n => (TIdent, n) | LWord ty w => (ty, w) | LPunct ty w => (ty, w) | LStr v => (TString, v) | LFun ty w => (ty, w) | LNum ds => (TNumber, ds) | LDur ds u => (TDuration, ds ++ u) end.
 
 Definition printable (c : byte) : bool := (32 <=? bz c) && (bz c <=? 126).
 (** a punctuation character: in the alphabet, and none of the characters the lexer treats specially before the table lookup *)
 Definition punct_char (c : byte) : bool :=
   printable c && negb (is_space_b c) && negb (ident_start c) && negb (is_digit_b c) &&
   negb (existsb (byte_eqb c) ["#"; "'"; """"; "`"]%byte).
+
+(** decimal digits without a superfluous leading zero *)
+Definition digits_ok (ds : bytes) : Prop :=
+  match ds with
+  | [] => False
+  | c :: t => is_digit_b c = true /\ forallb is_digit_b t = true /\ (byte_eqb c "0"%byte = true -> t = [])
+  end.
 
 Definition wf_ltok (t : ltok) : Prop :=
   match t with
@@ -40,6 +49,8 @@ Definition wf_ltok (t : ltok) : Prop :=
       end
   | LStr v => forallb printable v = true
   | LFun ty w => is_valid_label w = true /\ lookup_kw w keyword_table = Some ty /\ is_function ty = true
+  | LNum ds => digits_ok ds
+  | LDur ds u => digits_ok ds /\ match ds with c :: _ => byte_eqb c "0"%byte = false | [] => False end /\ (length ds <= 9)%nat /\ In u duration_units
   end.
 
 Definition all_space (ws : bytes) : Prop := ws <> [] /\ forallb is_space_b ws = true.
@@ -186,49 +197,116 @@ Proof.
   rewrite (scan_dq_esc v _ [] r Hv); [|rewrite app_length; cbn; lia]. cbn [app]. rewrite (unquote_esc v Hv). reflexivity.
 Qed.
 
+(** numbers and durations *)
+Lemma digit_facts c : is_digit_b c = true ->
+  in_alphabet c = true /\ is_space_b c = false /\ byte_eqb c "#"%byte = false /\ byte_eqb c "'"%byte = false /\ byte_eqb c "/"%byte = false /\
+  byte_eqb c "."%byte = false /\ byte_eqb c "-"%byte = false.
+Proof. destruct c; intro H; try discriminate H; repeat split; reflexivity. Qed.
+
+Lemma space_facts2 sp : is_space_b sp = true ->
+  is_letter_b sp = false /\ byte_eqb sp "_"%byte = false /\ byte_eqb sp "e"%byte = false /\ byte_eqb sp "E"%byte = false /\
+  byte_eqb sp "."%byte = false /\ is_value_rune sp = false /\ is_digit_b sp = false.
+Proof. destruct sp; intro H; try discriminate H; repeat split; reflexivity. Qed.
+
+Lemma digits_all c t : is_digit_b c = true -> forallb is_digit_b t = true -> forallb is_digit_b (c :: t) = true.
+Proof. intros H1 H2. cbn. rewrite H1. exact H2. Qed.
+
+Lemma num_step ds sp r f acc : digits_ok ds -> is_space_b sp = true ->
+  lex_loop (S f) (ds ++ sp :: r) acc = lex_loop f (sp :: r) (acc ++ [(TNumber, ds)]).
+Proof.
+  intros Hd Hs. destruct ds as [|c t]; [contradiction|]. destruct Hd as [Hc [Ht Hz]].
+  destruct (digit_facts c Hc) as [H1 [H2 [H3 [H4 [H5 [H6 H7]]]]]].
+  destruct (space_facts2 sp Hs) as [S1 [S2 [S3 [S4 [S5 [S6 S7]]]]]].
+  cbn [app lex_loop]. rewrite H1, H2, H3, H4, H5, H6, H7, Hc. cbn [negb andb].
+  change (c :: t ++ sp :: r) with ((c :: t) ++ sp :: r).
+  rewrite (span_stop is_digit_b (c :: t) (sp :: r) (digits_all c t Hc Ht) S7).
+  assert (Hlead : (byte_eqb c "0"%byte && match c :: t with [_] => match sp :: r with d :: _ => is_letter_b d || byte_eqb d "_"%byte | [] => false end | _ => true end) = false).
+  { destruct (byte_eqb c "0"%byte) eqn:E0; [|reflexivity]. rewrite (Hz eq_refl). cbn. rewrite S1, S2. reflexivity. }
+  rewrite Hlead. rewrite S2, S3, S4, S5. cbn [orb]. unfold scan_unit. rewrite S6. reflexivity.
+Qed.
+
+Lemma scan_unit_dur ds u sp r : In u duration_units -> is_space_b sp = true -> (length ds <= 9)%nat ->
+  scan_unit ds false (u ++ sp :: r) = UOk TDuration (ds ++ u) (sp :: r).
+Proof.
+  intros Hu Hs Hl. destruct (space_facts2 sp Hs) as [_ [_ [_ [_ [_ [S6 _]]]]]].
+  assert (Hsu : is_unit_rune sp = false).
+  { unfold is_value_rune in S6. apply orb_false_iff in S6. destruct S6 as [_ S6]. exact S6. }
+  assert (Hlen : (Z.of_nat (length ds) <=? 9) = true) by (apply Z.leb_le; lia).
+  cbn in Hu. repeat (destruct Hu as [<-|Hu]; [unfold scan_unit; cbn [app span is_value_rune is_unit_rune is_duration_rune is_bytes_rune existsb byte_eqb is_digit_b bz orb andb negb]; cbn; rewrite ?S6, ?Hsu; cbn; rewrite ?Hlen; reflexivity|]).
+  contradiction.
+Qed.
+
+Lemma dur_step ds u sp r f acc : digits_ok ds -> match ds with c :: _ => byte_eqb c "0"%byte = false | [] => False end ->
+  (length ds <= 9)%nat -> In u duration_units -> is_space_b sp = true ->
+  lex_loop (S f) ((ds ++ u) ++ sp :: r) acc = lex_loop f (sp :: r) (acc ++ [(TDuration, ds ++ u)]).
+Proof.
+  intros Hd Hnz Hl Hu Hs. destruct ds as [|c t]; [contradiction|]. destruct Hd as [Hc [Ht _]].
+  destruct (digit_facts c Hc) as [H1 [H2 [H3 [H4 [H5 [H6 H7]]]]]].
+  rewrite <- app_assoc. cbn [app lex_loop]. rewrite H1, H2, H3, H4, H5, H6, H7, Hc. cbn [negb andb].
+  change (c :: t ++ u ++ sp :: r) with ((c :: t) ++ (u ++ sp :: r)).
+  assert (Hu0 : match u ++ sp :: r with [] => True | b :: _ => is_digit_b b = false end).
+  { cbn in Hu. repeat (destruct Hu as [<-|Hu]; [reflexivity|]). contradiction. }
+  rewrite (span_stop is_digit_b (c :: t) (u ++ sp :: r) (digits_all c t Hc Ht) Hu0).
+  rewrite Hnz. cbn [andb].
+  pose proof (scan_unit_dur (c :: t) u sp r Hu Hs Hl) as Hsc.
+  assert (Hd1 : match u ++ sp :: r with
+                | d :: r1 => (byte_eqb d "_"%byte || byte_eqb d "e"%byte || byte_eqb d "E"%byte) = false /\ byte_eqb d "."%byte = false
+                | [] => False end).
+  { cbn in Hu. repeat (destruct Hu as [<-|Hu]; [split; reflexivity|]). contradiction. }
+  destruct (u ++ sp :: r) as [|d r1] eqn:Er; [contradiction|]. destruct Hd1 as [D1 D2]. rewrite D1, D2. rewrite Hsc. reflexivity.
+Qed.
+
 Definition wf_item (p : ltok * bytes) : Prop := wf_ltok (fst p) /\ all_space (snd p).
 
 Lemma ltext_len t : wf_ltok t -> (1 <= length (ltext t))%nat.
 Proof.
-  destruct t as [n|ty w|ty w|v|ty w]; cbn [wf_ltok ltext].
+  destruct t as [n|ty w|ty w|v|ty w|ds|ds u]; cbn [wf_ltok ltext].
   - intros [H _]. unfold is_valid_label in H. destruct n; [discriminate|cbn; lia].
   - intros [H _]. unfold is_valid_label in H. destruct w; [discriminate|cbn; lia].
   - destruct w as [|c [|d [|e w']]]; try contradiction; cbn; lia.
   - intros _. cbn. lia.
   - intros [H _]. unfold is_valid_label in H. destruct w; [discriminate|cbn; lia].
+  - destruct ds; [contradiction|]. intros _. cbn. lia.
+  - destruct ds; [intros [[] _]|]. intros _. cbn. lia.
 Qed.
 
-(** a function keyword is followed (after its white space) by an opening parenthesis *)
+(** a function keyword keeps its type when the next token (after the white space) starts with an opening parenthesis, or with b / w
+    (by, without) *)
 Definition open_paren : ltok := LPunct TOpenParen ["("%byte].
+Definition keep_char (d : byte) : bool := byte_eqb d "("%byte || byte_eqb d "b"%byte || byte_eqb d "w"%byte.
+Definition fun_next (t2 : ltok) : Prop := match ltext t2 with d :: _ => keep_char d = true | [] => False end.
 Fixpoint fun_ok (l : list (ltok * bytes)) : Prop :=
   match l with
   | [] => True
-  | (LFun _ _, _) :: r => match r with (t2, _) :: _ => t2 = open_paren | [] => False end /\ fun_ok r
+  | (LFun _ _, _) :: r => match r with (t2, _) :: _ => fun_next t2 | [] => False end /\ fun_ok r
   | _ :: r => fun_ok r
   end.
 
-Lemma skip_wsc_spaces ws : forall fuel r, forallb is_space_b ws = true -> (length ws < fuel)%nat ->
-  skip_ws_comments fuel (ws ++ "("%byte :: r) = "("%byte :: r.
+Lemma keep_char_facts d : keep_char d = true -> is_space_b d = false /\ byte_eqb d "#"%byte = false.
+Proof. destruct d; intro H; try discriminate H; split; reflexivity. Qed.
+
+Lemma skip_wsc_spaces ws : forall fuel d r, forallb is_space_b ws = true -> (length ws < fuel)%nat -> keep_char d = true ->
+  skip_ws_comments fuel (ws ++ d :: r) = d :: r.
 Proof.
-  induction ws as [|c t IH]; intros fuel r Hw Hf; (destruct fuel as [|f]; [cbn in Hf; lia|]).
-  - reflexivity.
-  - cbn in Hw. apply andb_true_iff in Hw. destruct Hw as [Hc Ht]. cbn [app skip_ws_comments]. rewrite Hc. apply IH; [exact Ht|cbn in Hf; lia].
+  induction ws as [|c t IH]; intros fuel d r Hw Hf Hd; (destruct fuel as [|f]; [cbn in Hf; lia|]).
+  - destruct (keep_char_facts d Hd) as [K1 K2]. cbn [app skip_ws_comments]. rewrite K1, K2. reflexivity.
+  - cbn in Hw. apply andb_true_iff in Hw. destruct Hw as [Hc Ht]. cbn [app skip_ws_comments]. rewrite Hc. apply IH; [exact Ht|cbn in Hf; lia|exact Hd].
 Qed.
 
-Lemma fun_step w ty sp ws r f acc : is_valid_label w = true -> lookup_kw w keyword_table = Some ty -> is_function ty = true ->
-  is_space_b sp = true -> forallb is_space_b ws = true ->
-  lex_loop (S f) (w ++ (sp :: ws) ++ "("%byte :: r) acc = lex_loop f ("("%byte :: r) (acc ++ [(ty, w)]).
+Lemma fun_step w ty sp ws d r f acc : is_valid_label w = true -> lookup_kw w keyword_table = Some ty -> is_function ty = true ->
+  is_space_b sp = true -> forallb is_space_b ws = true -> keep_char d = true ->
+  lex_loop (S f) (w ++ (sp :: ws) ++ d :: r) acc = lex_loop f (d :: r) (acc ++ [(ty, w)]).
 Proof.
-  intros Hw E Ef Hsp Hws. unfold is_valid_label in Hw. destruct w as [|c t]; [discriminate|].
+  intros Hw E Ef Hsp Hws Hd. unfold is_valid_label in Hw. destruct w as [|c t]; [discriminate|].
   apply andb_true_iff in Hw. destruct Hw as [Hc Hall].
   destruct (ident_start_facts c Hc) as [H1 [H2 [H3 [H4 [H5 [H6 [H7 [H8 [H9 H10]]]]]]]]].
   cbn [app lex_loop]. rewrite H1, H2, H3, H4, H5, H6, H7, H8, H9, H10. cbn [negb andb]. rewrite Hc.
-  change (c :: t ++ sp :: ws ++ "("%byte :: r) with ((c :: t) ++ sp :: (ws ++ "("%byte :: r)).
-  rewrite (span_stop ident_rune (c :: t) (sp :: ws ++ "("%byte :: r) Hall (space_not_ident sp Hsp)).
+  change (c :: t ++ sp :: ws ++ d :: r) with ((c :: t) ++ sp :: (ws ++ d :: r)).
+  rewrite (span_stop ident_rune (c :: t) (sp :: ws ++ d :: r) Hall (space_not_ident sp Hsp)).
   rewrite E, Ef. cbv zeta.
-  change (sp :: ws ++ "("%byte :: r) with ((sp :: ws) ++ "("%byte :: r).
-  rewrite (skip_wsc_spaces (sp :: ws)); [|cbn; rewrite Hsp; exact Hws|rewrite app_length; cbn; lia].
-  reflexivity.
+  change (sp :: ws ++ d :: r) with ((sp :: ws) ++ d :: r).
+  rewrite (skip_wsc_spaces (sp :: ws)); [|cbn; rewrite Hsp; exact Hws|rewrite app_length; cbn; lia|exact Hd].
+  unfold keep_char in Hd. rewrite Hd. reflexivity.
 Qed.
 
 Lemma fun_ok_tail t ws r : fun_ok ((t, ws) :: r) -> fun_ok r.
@@ -247,8 +325,8 @@ Proof.
     { intros f' acc' Hf'. destruct (skip_spaces (sp :: ws') f' (layout r) acc') as [f'' [Hlt ->]]; [cbn; rewrite Hs; exact Hws|exact Hf'|].
       apply IH; assumption. }
     pose proof (ltext_len t Ht) as Hlen. rewrite app_length in Hf.
-    destruct t as [n|ty w|ty w|v|ty w]; cbn [wf_ltok ltext lres] in *;
-      [change ((sp :: ws') ++ layout r) with (sp :: (ws' ++ layout r)) ..|].
+    destruct t as [n|ty w|ty w|v|ty w|ds|ds u]; cbn [wf_ltok ltext lres] in *.
+    all: try change ((sp :: ws') ++ layout r) with (sp :: (ws' ++ layout r)).
     + destruct Ht as [Hv Hk]. rewrite (word_step n sp _ f acc Hv Hs), Hk.
       change (sp :: ws' ++ layout r) with ((sp :: ws') ++ layout r). rewrite Hcont; [|cbn [app length] in *; rewrite app_length in *; lia].
       rewrite <- app_assoc. reflexivity.
@@ -265,12 +343,20 @@ Proof.
     + cbn [app]. rewrite <- app_assoc. cbn [app]. rewrite (str_step v _ f acc Ht).
       change (sp :: ws' ++ layout r) with ((sp :: ws') ++ layout r). rewrite Hcont; [|cbn [app length] in *; rewrite !app_length in *; cbn [length] in *; lia].
       rewrite <- app_assoc. reflexivity.
-    + destruct Ht as [Hv [Hk Hfun]]. cbn [fun_ok] in Hfn. destruct Hfn as [Hnext _].
-      destruct r as [|[t2 ws2] r2]; [contradiction|]. subst t2. cbn [layout ltext open_paren] in *.
-      change (w ++ (sp :: ws') ++ ["("%byte] ++ ws2 ++ layout r2) with (w ++ (sp :: ws') ++ "("%byte :: (ws2 ++ layout r2)).
-      rewrite (fun_step w ty sp ws' _ f acc Hv Hk Hfun Hs Hws).
-      change ("("%byte :: ws2 ++ layout r2) with (layout ((open_paren, ws2) :: r2)).
-      rewrite IH; [|exact Hr|exact Hfr|cbn [layout ltext open_paren app length] in *; repeat (rewrite app_length in * || cbn [length app] in * ); lia].
+    + change (sp :: (ws' ++ layout r)) with ((sp :: ws') ++ layout r).
+      destruct Ht as [Hv [Hk Hfun]]. cbn [fun_ok] in Hfn. destruct Hfn as [Hnext _].
+      destruct r as [|[t2 ws2] r2]; [contradiction|]. unfold fun_next in Hnext. cbn [layout] in *.
+      destruct (ltext t2) as [|d rest] eqn:E2; [contradiction|]. cbn [app].
+      change (w ++ sp :: ws' ++ d :: rest ++ ws2 ++ layout r2) with (w ++ (sp :: ws') ++ d :: (rest ++ ws2 ++ layout r2)).
+      rewrite (fun_step w ty sp ws' d _ f acc Hv Hk Hfun Hs Hws Hnext).
+      change (d :: rest ++ ws2 ++ layout r2) with ((d :: rest) ++ ws2 ++ layout r2).
+      rewrite IH; [|exact Hr|exact Hfr|repeat (rewrite app_length in * || cbn [length app] in * ); lia].
+      rewrite <- app_assoc. reflexivity.
+    + rewrite (num_step ds sp _ f acc Ht Hs).
+      change (sp :: ws' ++ layout r) with ((sp :: ws') ++ layout r). rewrite Hcont; [|cbn [app length] in *; rewrite app_length in *; lia].
+      rewrite <- app_assoc. reflexivity.
+    + destruct Ht as [Hd [Hnz [Hl Hu]]]. rewrite (dur_step ds u sp _ f acc Hd Hnz Hl Hu Hs).
+      change (sp :: ws' ++ layout r) with ((sp :: ws') ++ layout r). rewrite Hcont; [|cbn [app length] in *; rewrite !app_length in *; lia].
       rewrite <- app_assoc. reflexivity.
 Qed.
 
